@@ -153,3 +153,73 @@ Proof.
   rewrite log_tr_spec. unfold retry_tr.
   change (@None resp, @None nat) with (logres (None, None)) at 1. apply loop_tr_log.
 Qed.
+
+(* ---- the first-acceptable / exhausted characterisation over an ARBITRARY stateful RoundTripper:
+   [st next c i] is the wire state after i invocations of [next] from state c, [res next c i] the
+   result of invocation i ---- *)
+Fixpoint st (next : tr) (c i : nat) : nat :=
+  match i with O => c | S i' => st next (snd (next c)) i' end.
+Definition res (next : tr) (c i : nat) : result := snd (fst (next (st next c i))).
+
+Lemma loop_tr_hit next : forall fuel a last c j,
+  j < fuel ->
+  (forall i, i < j -> acceptable_res (res next c i) = false) ->
+  acceptable_res (res next c j) = true ->
+  snd (fst (loop_tr next fuel a last c)) = res next c j /\
+  snd (loop_tr next fuel a last c) = st next c (S j).
+Proof.
+  induction fuel as [|fuel IH]; intros a last c j Hj Hbefore Hacc; [lia|].
+  cbn [loop_tr].
+  assert (Hr0 : res next c 0 = snd (fst (next c))) by reflexivity.
+  destruct (next c) as [[ev1 r] c1] eqn:E. cbn [fst snd] in Hr0.
+  destruct j as [|j].
+  - rewrite Hr0 in Hacc. rewrite Hacc. cbn [fst snd].
+    rewrite (acceptable_res_shape r Hacc). split; [symmetry; exact Hr0|].
+    cbn [st]. rewrite E. reflexivity.
+  - pose proof (Hbefore 0 ltac:(lia)) as H0. rewrite Hr0 in H0. rewrite H0.
+    assert (Hshift : forall i, res next c (S i) = res next c1 i).
+    { intros i. unfold res. cbn [st]. rewrite E. reflexivity. }
+    destruct (IH (S a) r c1 j ltac:(lia)) as [Hres Hst].
+    + intros i Hi. rewrite <- Hshift. apply Hbefore. lia.
+    + rewrite <- Hshift. exact Hacc.
+    + destruct (loop_tr next fuel (S a) r c1) as [[ev r'] c2]. cbn [fst snd] in *.
+      split; [rewrite Hshift; exact Hres|].
+      change (st next c (S (S j))) with (st next (snd (next c)) (S j)). rewrite E. exact Hst.
+Qed.
+
+Lemma loop_tr_miss next : forall fuel a last c,
+  (forall i, i < fuel -> acceptable_res (res next c i) = false) ->
+  snd (fst (loop_tr next fuel a last c)) = match fuel with O => last | S f => res next c f end /\
+  snd (loop_tr next fuel a last c) = st next c fuel.
+Proof.
+  induction fuel as [|fuel IH]; intros a last c Hnone; [split; reflexivity|].
+  cbn [loop_tr].
+  assert (Hr0 : res next c 0 = snd (fst (next c))) by reflexivity.
+  destruct (next c) as [[ev1 r] c1] eqn:E. cbn [fst snd] in Hr0.
+  pose proof (Hnone 0 ltac:(lia)) as H0. rewrite Hr0 in H0. rewrite H0.
+  assert (Hshift : forall i, res next c (S i) = res next c1 i).
+  { intros i. unfold res. cbn [st]. rewrite E. reflexivity. }
+  destruct (IH (S a) r c1) as [Hres Hst].
+  { intros i Hi. rewrite <- Hshift. apply Hnone. lia. }
+  destruct (loop_tr next fuel (S a) r c1) as [[ev r'] c2]. cbn [fst snd] in *.
+  split.
+  - rewrite Hres. destruct fuel as [|f]; [symmetry; exact Hr0|]. symmetry. apply Hshift.
+  - change (st next c (S fuel)) with (st next (snd (next c)) fuel). rewrite E. exact Hst.
+Qed.
+
+Lemma retry_tr_hit n next c j : (0 <= n)%Z ->
+  j < Z.to_nat (n + 1) ->
+  (forall i, i < j -> acceptable_res (res next c i) = false) ->
+  acceptable_res (res next c j) = true ->
+  snd (fst (retry_tr n next c)) = res next c j /\ snd (retry_tr n next c) = st next c (S j).
+Proof. intros _. unfold retry_tr. apply loop_tr_hit. Qed.
+
+Lemma retry_tr_miss n next c : (0 <= n)%Z ->
+  (forall i, i < Z.to_nat (n + 1) -> acceptable_res (res next c i) = false) ->
+  snd (fst (retry_tr n next c)) = res next c (Z.to_nat n) /\
+  snd (retry_tr n next c) = st next c (Z.to_nat (n + 1)).
+Proof.
+  intros Hn Hnone. unfold retry_tr. destruct (loop_tr_miss next (Z.to_nat (n + 1)) 0 (None, None) c Hnone) as [Hres Hst].
+  split; [|exact Hst]. rewrite Hres.
+  replace (Z.to_nat (n + 1)) with (S (Z.to_nat n)) by lia. reflexivity.
+Qed.
